@@ -47,3 +47,6 @@ Definition C04_for_the_executed_model := C04_keygen_is_FIPS204 real_hashes real_
 Print Assumptions C04_keygen_is_FIPS204.
 Print Assumptions C04_keygen_rng_is_seeded.
 Print Assumptions C04_keygen_rng_failure.
+(* T2: lib.rs overrides no provided trait method: try_keygen is the _with_rng variant applied to OsRng *)
+Require F204.Proofs.SourcePins.
+Check F204.Proofs.SourcePins.lib_impl_methods_pinned.
